@@ -1,0 +1,22 @@
+//go:build verif
+
+package eval
+
+// Hooks for the verification harness (/verif). Only built with -tags verif.
+
+// VerifTrace, when set, is called at the named points of the evaluator:
+//
+//	pipeline.enter / pipeline.start        before / after the interrupt check of a pipeline
+//	peach.acquire-enter / -return / peach.spawn / peach.release
+//	modules.read / modules.write / modules.iter   immediately before an access to Evaler.modules
+//	module.exec-begin / module.exec-end    around the execution of a module's code
+//	eval.mu-locked                         Evaler.Eval holds Evaler.mu
+//
+// fm is nil where no frame exists. The function may block (scheduler gate).
+var VerifTrace func(ev *Evaler, fm *Frame, point string)
+
+func verifTrace(ev *Evaler, fm *Frame, point string) {
+	if f := VerifTrace; f != nil {
+		f(ev, fm, point)
+	}
+}
